@@ -274,6 +274,9 @@ class Engine:
     def __init__(self, ctx, pid):
         self.ctx, self.pid = ctx, pid
         consts = gen_fe.generate()
+        if pid == 'C04':
+            from translators import gen_c06      # Properties/C04.v composes with the encoder development of C06
+            gen_c06.generate()
         ctx.notes.append('generated constants: %r' % (consts,))
         if not ctx.coq():
             ctx.broken_proof()
@@ -594,6 +597,88 @@ def build_cases(ctx, lib, profile):
     return cases
 
 
+# ---- system level: FusionEngineEncoder -> FusionEngineDecoder (C04_decodes_encoder_output[_with_junk]) ---------------
+def roundtrip_cases(ctx, eng, n):
+    """n histories of one encoder instance; returns [(Case, expectation)]: the encoder's outputs concatenated (half of
+    them with junk free of '.' before each message) and what the decoder must return for them"""
+    r = ctx.rng
+    lines, meta = [], []
+    for i in range(n):
+        k = r.choice([1, 2, 3, 5, 8])
+        s0 = r.choice([0, 0, 1, 1000, (1 << 32) - 1, (1 << 32) - 2, (1 << 32) - k, r.getrandbits(32)])
+        lines.append('%d %d %d' % (r.getrandbits(31), k, s0)); meta.append((k, s0))
+    outs = vf.run_parallel([vf.PY, HARNESS, 'encode'], lines, env=vf.IMPL_ENV)
+    res = []
+    for (k, s0), o in zip(meta, outs):
+        d = json.loads(o)
+        if 'error' in d:
+            ctx.violation({'kind': 'encoder-raises', 'exception': d['error'].split(':')[0]},
+                          'FusionEngineEncoder.encode_message raised %s at initial sequence number %d' % (d['error'], s0), {'k': k, 's0': s0, 'detail': d})
+            continue
+        junk = r.random() < 0.5
+        toks, exp, off = [], [], 0
+        for j, m in enumerate(d['msgs']):
+            out = bytes.fromhex(m['out'])
+            if junk:
+                jb = bytes(x if x != 0x2e else 0x2f for x in (r.randrange(256) for _ in range(r.choice([0, 1, 3, 24, 40]))))
+                if jb:
+                    toks.append(('junk', jb)); off += len(jb)
+            toks.append(('encoded', out))
+            exp.append({'type': m['type'], 'seq': (s0 + j) % (1 << 32), 'psize': len(m['payload']) // 2, 'raw': m['out'], 'off': off,
+                        'end': off + len(out), 'version': m['version'], 'source': m['source'], 'payload': m['payload'], 'cls': m['cls']})
+            off += len(out)
+        c = Case(toks, M24, None, 1, 1, '', 'encoder-roundtrip' + ('-junk' if junk else ''), '%s,%d,%d' % (r.choice(['likely', 'all', 'none']), r.randrange(2), r.randrange(2)))
+        n_ = len(c.stream)
+        c.chunkings = 'ONE;BYTES;' + ';'.join('c:' + ','.join(map(str, random_partition(r, n_))) for _ in range(3))
+        res.append((c, exp))
+    return res
+
+
+def roundtrip_check(ctx, eng, rt):
+    """compare what the decoder returned (per call) with the encoder's INPUTS: header fields, raw bytes, running offsets,
+    consecutive sequence numbers mod 2^32, the header bytes themselves, and the delivering call = the call that supplies
+    the message's last byte"""
+    if not rt:
+        return
+    res = eng.run([c for c, _ in rt], 'V')
+    for (c, exp), r in zip(rt, res):
+        if isinstance(r, str):
+            raise RuntimeError(r)
+        orc, ii, mm = r
+        failing = {e.split(':')[1] for e in (orc.split(',') if orc != '-' else []) if e.split(':')[2] == '0'}
+        if any(x['payload'] in failing or (x['payload'] == '' and '-' in failing) for x in exp):
+            ctx.count('roundtrip:skipped (payload parser rejects an encoder-built payload: proviso of the theorem not met)')
+            continue
+        for ch, (ir, ia) in zip(expand_chunkings(c), ii):
+            ctx.count('roundtrip:evaluations')
+            sizes = [len(c.stream)] if ch == 'ONE' else [1] * len(c.stream) if ch == 'BYTES' else [int(x) for x in ch[2:].split(',') if x]
+            ends, acc = [], 0
+            for sz in sizes:
+                acc += sz; ends.append(acc)
+            want = []
+            for x in exp:
+                call = next(i for i, e in enumerate(ends) if e >= x['end'])
+                hdr = bytes.fromhex(x['raw'])[:24]
+                ok_hdr = (hdr[0:2] == b'.1' and hdr[2:4] == b'\0\0' and hdr[9] == x['version'] and struct.unpack_from('<H', hdr, 10)[0] == x['type']
+                          and struct.unpack_from('<III', hdr, 12) == (x['seq'], x['psize'], x['source']) and x['raw'][48:] == x['payload'])
+                want.append((call, x['type'], x['seq'], x['psize'], struct.unpack_from('<I', hdr, 4)[0], x['raw'], x['off'], ok_hdr))
+            got = []
+            for i, it in parse_items(ir):
+                f = it.split(',')
+                got.append((i,) + tuple(int(v) for v in f[:4]) + (f[4], int(f[5]) if f[5] != '-' else None, True) if len(f) >= 7 and '!' not in it else (i, it))
+            if got != want or '?' not in ia and not ia.endswith('%d,0,1,0,%d;' % (len(c.stream), exp[-1]['seq'])):
+                what = 'different' if len(got) == len(want) else 'count'
+                for g, w_ in zip(got, want):
+                    if g != w_:
+                        what = ('header-bytes-not-the-inputs' if not w_[7] else 'delivering-call' if g[1:] == w_[1:] else
+                                'sequence-number' if len(g) > 3 and g[3] != w_[3] else 'offset' if len(g) > 7 and g[6] != w_[6] else 'different')
+                        break
+                d = c.describe(); d.update({'chunking': ch, 'impl_R': ir, 'impl_A': ia[-120:], 'expected': [w_[:5] + (w_[6],) for w_ in want],
+                                            'inputs': [{k: x[k] for k in ('cls', 'type', 'version', 'source', 'seq', 'off')} for x in exp]})
+                ctx.violation({'kind': 'encoder-output-not-returned-exactly', 'what': what, 'junk': 'junk' in c.origin},
+                              'messages built by FusionEngineEncoder and fed to FusionEngineDecoder (%s) do not come back as encoded: %s' % (ch[:40], what), d)
+
+
 def common_evidence(ctx, eng, profile, cases):
     ctx.coverage['rule'] = (
         'streams = concatenations of tokens of %d kinds (%s); every registered payload class (%d buildable by the encoder, %d not) appears alone, '
@@ -625,8 +710,16 @@ def common_evidence(ctx, eng, profile, cases):
 def run(ctx):
     eng = Engine(ctx, 'C04')
     cases = build_cases(ctx, eng.lib, 'C04')
+    rt = roundtrip_cases(ctx, eng, 1500 if ctx.thorough else 250)
+    cases += [c for c, _ in rt]
     ctx.log('%d streams, %d (stream, chunking) evaluations' % (len(cases), sum(n_chunkings(c) for c in cases)))
     eng.evaluate(cases)
+    roundtrip_check(ctx, eng, rt)
+    ctx.coverage['roundtrip_rule'] = ('system level (C04_decodes_encoder_output[_with_junk]): %d histories of one FusionEngineEncoder (1-8 messages of random '
+                                      'registered classes, random source ids, initial counters incl. 2^32-1 and 2^32-k), concatenated (half with junk free '
+                                      "of '.' before each message), decoded in one call, byte by byte and under 3 random partitions; the returned entries are "
+                                      'compared with the INPUTS (type, version, source id, payload bytes, consecutive sequence numbers mod 2^32, raw bytes '
+                                      '= encoder outputs, offsets = running sums, delivering call = the one supplying the last byte, empty buffer at the end)' % len(rt))
     # the vm_compute witness of C04_exact_refuted, replayed on the implementation
     w = [c for c in cases if c.origin == 'corpus:coq-witness-bad-pose.json']
     if w:
